@@ -8,6 +8,9 @@ import Toodee.Properties.C14
 import Toodee.Properties.C15
 import Toodee.Properties.C16
 import Toodee.Properties.C17
+import Toodee.Proofs.RunSpecView
+import Toodee.Proofs.RunSpecOwned
+import Toodee.Proofs.SpecCells
 /-
   C04 — Operations on a mutable view never touch cells outside it (operation level).
 
@@ -30,7 +33,89 @@ variable {α : Type}
 def VW.ownedOf (v : VW) (buf : List α) : TD α := ⟨v.cellsOf buf, v.numRows, v.numCols⟩
 
 theorem C04_owned_of_inv (v : VW) (buf : List α) (h : v.Inv buf.length) : (v.ownedOf buf).Inv := by
-  sorry
+  obtain ⟨hl, _⟩ := v.cellsOf_facts buf h
+  refine ⟨hl, h.zero, ?_⟩
+  show (v.cellsOf buf).length < WORD
+  have := h.area_le; have := h.inside; have := h.word
+  omega
+
+/-- the owned copy of a view, seen as a view of its own buffer, is the owned shape -/
+private theorem VW.ownedOf_asView (v : VW) (buf : List α) (h : v.Inv buf.length) : (v.ownedOf buf).asView = v.ownedShape := by
+  obtain ⟨hl, _⟩ := v.cellsOf_facts buf h
+  show (⟨⟨0, (v.cellsOf buf).length⟩, v.numCols, v.numRows, v.numCols⟩ : VW) = _
+  rw [hl]; rfl
+
+/-- a call on an owned receiver sees the receiver only through its dimensions (its buffer is the `buf` argument) -/
+private theorem Recv.run_root_shape (m : Mode) (lim : Nat) (t t' : TD α) (hR : t.numRows = t'.numRows) (hC : t.numCols = t'.numCols)
+    (d : List α) (op : MOp α) : (Recv.root t).run m lim d op = (Recv.root t').run m lim d op := by
+  obtain ⟨_, _, _⟩ := t
+  obtain ⟨_, _, _⟩ := t'
+  simp only at hR hC
+  subst hR; subst hC
+  rfl
+
+private theorem Recv.runAll_root_shape (m : Mode) (lim : Nat) (t t' : TD α) (hR : t.numRows = t'.numRows)
+    (hC : t.numCols = t'.numCols) (ops : List (MOp α)) (d : List α) :
+    (Recv.root t).runAll m lim d ops = (Recv.root t').runAll m lim d ops := by
+  induction ops generalizing d with
+  | nil => rfl
+  | cons op ops ih =>
+    show ((Recv.root t).run m lim d op >>= fun b => (Recv.root t).runAll m lim b ops)
+      = ((Recv.root t').run m lim d op >>= fun b => (Recv.root t').runAll m lim b ops)
+    rw [Recv.run_root_shape m lim t t' hR hC d op]
+    congr 1
+    funext b
+    exact ih b
+
+/-- **the Impl-model refines the specification on views**: any operation, any arguments, any view, both modes -/
+theorem C04_run_view (m : Mode) (lim : Nat) (v : VW) (buf : List α) (h : v.Inv buf.length) (op : MOp α)
+    (hs : op.Sane) (hsrc : op.srcOk) :
+    (Recv.vmut v).run m lim buf op = op.spec v lim buf :=
+  run_view_spec m lim v buf h op hs hsrc
+
+/-- what the specification means: never `ub`, length kept, everything outside the view untouched -/
+theorem C04_spec_frame (lim : Nat) (v : VW) (buf : List α) (h : v.Inv buf.length) (op : MOp α) (hs : op.Sane) :
+    op.spec v lim buf ≠ .error .ub ∧ op.spec v lim buf ≠ .error .fuel ∧
+    ∀ buf', op.spec v lim buf = .ok buf' → buf'.length = buf.length ∧ ∀ p, v.coord? p = none → buf'[p]? = buf[p]? := by
+  have hp := spec_pair lim v buf h op hs
+  generalize op.spec v lim buf = res at hp
+  generalize op.spec v.ownedShape lim (v.cellsOf buf) = res' at hp
+  cases hp with
+  | panic => exact ⟨nofun, nofun, nofun⟩
+  | perm g hg =>
+    obtain ⟨hl, hf, _⟩ := C04_frame_perm v buf h g hg
+    refine ⟨nofun, nofun, fun b hb => ?_⟩
+    injection hb with hb
+    subst hb
+    exact ⟨hl, hf⟩
+  | upd f f' hff =>
+    obtain ⟨hl, hf, _⟩ := C04_frame_upd v buf h f
+    refine ⟨nofun, nofun, fun b hb => ?_⟩
+    injection hb with hb
+    subst hb
+    exact ⟨hl, hf⟩
+
+/-- the specification depends on the receiver only through its cells: on the owned copy of the view it gives the owned copy of
+    the result, and it rejects exactly the same calls -/
+theorem C04_spec_same_cells (lim : Nat) (v : VW) (buf : List α) (h : v.Inv buf.length) (op : MOp α) (hs : op.Sane) :
+    (∀ buf', op.spec v lim buf = .ok buf' → op.spec v.ownedShape lim (v.cellsOf buf) = .ok (v.cellsOf buf')) ∧
+    (∀ e, op.spec v lim buf = .error e → op.spec v.ownedShape lim (v.cellsOf buf) = .error e) := by
+  have hp := spec_pair lim v buf h op hs
+  generalize op.spec v lim buf = res at hp
+  generalize op.spec v.ownedShape lim (v.cellsOf buf) = res' at hp
+  cases hp with
+  | panic => exact ⟨nofun, fun e he => he⟩
+  | perm g hg =>
+    refine ⟨fun b hb => ?_, nofun⟩
+    injection hb with hb
+    subst hb
+    rw [C04_same_effect_perm v buf h g hg]
+  | upd f f' hff =>
+    refine ⟨fun b hb => ?_, nofun⟩
+    injection hb with hb
+    subst hb
+    rw [C04_same_effect_upd v buf h f]
+    exact congrArg Except.ok (VW.updCells_congr v.ownedShape _ f' f (fun c r hc hr => (hff c r hc hr).symm))
 
 /-- **one call on a view** -/
 theorem C04_view_op (m : Mode) (lim : Nat) (v : VW) (buf : List α) (h : v.Inv buf.length) (op : MOp α)
@@ -41,7 +126,14 @@ theorem C04_view_op (m : Mode) (lim : Nat) (v : VW) (buf : List α) (h : v.Inv b
       (Recv.root (v.ownedOf buf)).run m lim (v.cellsOf buf) op = .ok (v.cellsOf buf')) ∧
     (∀ e, (Recv.vmut v).run m lim buf op = .error e →
       (Recv.root (v.ownedOf buf)).run m lim (v.cellsOf buf) op = .error e) := by
-  sorry
+  have hrun := C04_run_view m lim v buf h op hs hsrc
+  have hown := run_owned_spec m lim (v.ownedOf buf) (C04_owned_of_inv v buf h) op hs hsrc
+  rw [VW.ownedOf_asView v buf h] at hown
+  change (Recv.root (v.ownedOf buf)).run m lim (v.cellsOf buf) op = op.spec v.ownedShape lim (v.cellsOf buf) at hown
+  rw [hrun, hown]
+  obtain ⟨f1, f2, f3⟩ := C04_spec_frame lim v buf h op hs
+  obtain ⟨s1, s2⟩ := C04_spec_same_cells lim v buf h op hs
+  exact ⟨f1, f2, fun b hb => ⟨(f3 b hb).1, (f3 b hb).2, s1 b hb⟩, s2⟩
 
 /-- **any sequence of calls on the same view**: frame untouched, cells follow the owned array under the same calls -/
 theorem C04_view_ops (m : Mode) (lim : Nat) (v : VW) (buf : List α) (h : v.Inv buf.length) (ops : List (MOp α))
@@ -50,14 +142,59 @@ theorem C04_view_ops (m : Mode) (lim : Nat) (v : VW) (buf : List α) (h : v.Inv 
     (∀ buf', (Recv.vmut v).runAll m lim buf ops = .ok buf' →
       buf'.length = buf.length ∧ (∀ p, v.coord? p = none → buf'[p]? = buf[p]?) ∧
       (Recv.root (v.ownedOf buf)).runAll m lim (v.cellsOf buf) ops = .ok (v.cellsOf buf')) := by
-  sorry
+  induction ops generalizing buf with
+  | nil =>
+    refine ⟨nofun, nofun, fun b hb => ?_⟩
+    have hb' : buf = b := by injection hb
+    subst hb'
+    exact ⟨rfl, fun _ _ => rfl, rfl⟩
+  | cons op ops ih =>
+    obtain ⟨hsop, hsrc⟩ := hs op (List.mem_cons_self ..)
+    obtain ⟨o1, o2, o3, _⟩ := C04_view_op m lim v buf h op hsop hsrc
+    have hstep : (Recv.vmut v).runAll m lim buf (op :: ops)
+        = ((Recv.vmut v).run m lim buf op >>= fun b => (Recv.vmut v).runAll m lim b ops) := rfl
+    cases hr : (Recv.vmut v).run m lim buf op with
+    | error e =>
+      rw [hstep, hr, err_bind]
+      rw [hr] at o1 o2
+      exact ⟨o1, o2, nofun⟩
+    | ok b =>
+      obtain ⟨l1, l2, l3⟩ := o3 b hr
+      have hb : v.Inv b.length := by rw [l1]; exact h
+      obtain ⟨i1, i2, i3⟩ := ih b hb (fun op' hop' => hs op' (List.mem_cons_of_mem _ hop'))
+      rw [hstep, hr, ok_bind]
+      refine ⟨i1, i2, fun b' hb' => ?_⟩
+      obtain ⟨j1, j2, j3⟩ := i3 b' hb'
+      refine ⟨by omega, fun p hp => by rw [j2 p hp, l2 p hp], ?_⟩
+      show ((Recv.root (v.ownedOf buf)).run m lim (v.cellsOf buf) op >>= fun b =>
+        (Recv.root (v.ownedOf buf)).runAll m lim b ops) = _
+      rw [l3, ok_bind, Recv.runAll_root_shape m lim (v.ownedOf buf) (v.ownedOf b) rfl rfl]
+      exact j3
 
 /-- nested views: a view of a view is a view of the same root buffer whose cells are cells of the outer view, so everything
     outside the *outer* view is outside the inner one too -/
 theorem C04_nested_frame (m : Mode) (v : VW) (n : Nat) (h : v.Inv n) (s e : Nat × Nat) (v' : VW)
     (hv : v.view m s e = .ok v') :
     v'.Inv n ∧ ∀ p, v.coord? p = none → v'.coord? p = none := by
-  sorry
+  by_cases hok : (s.1 ≤ e.1 ∧ s.2 ≤ e.2) ∧ (e.1 ≤ v.numCols ∧ e.2 ≤ v.numRows)
+  · obtain ⟨v'', e1, _, hinv, hsz, hpos⟩ := C03_view_valid m v n h s e hok.1 hok.2
+    have hv' : v'' = v' := by rw [e1] at hv; injection hv
+    subst hv'
+    refine ⟨hinv, fun p hp => ?_⟩
+    cases hq : v''.coord? p with
+    | none => rfl
+    | some cr =>
+      obtain ⟨c, r⟩ := cr
+      obtain ⟨he, hc, hr⟩ := VW.coord?_eq_some hq
+      obtain ⟨_, hcs, hrs⟩ := viewSize_facts s e
+      have hC : (viewSize s e).1 = v''.numCols := by rw [← hsz]
+      have hR : (viewSize s e).2 = v''.numRows := by rw [← hsz]
+      have hc' : s.1 + c < v.numCols := by have := hcs c (hC ▸ hc); omega
+      have hr' : s.2 + r < v.numRows := by have := hrs r (hR ▸ hr); omega
+      rw [he, hpos c r hc hr, VW.coord?_pos h hc' hr'] at hp
+      cases hp
+  · have hd := calcViewDims_panic m s e v.numCols v.numRows v.stride hok
+    simp [VW.view, hd] at hv
 
 /-- what mutable iteration hands out are cells of the view: `rows_mut()`, `col_mut(c)` and `cells_mut()` of a view yield only
     positions that are cells of that view (so writes through them stay inside) -/
@@ -65,11 +202,37 @@ theorem C04_iter_positions_view (m : Mode) (v : VW) (n : Nat) (h : v.Inv n) :
     (∃ it, v.rows m = .ok it ∧ ∀ w ∈ it.abs v.numRows, ∀ p ∈ w.positions, (v.coord? p).isSome) ∧
     (∀ c, c < v.numCols → ∃ it, v.col m c = .ok it ∧ ∀ p ∈ it.abs v.numRows, (v.coord? p).isSome) ∧
     (∃ it, v.rows m = .ok it ∧ ∀ p ∈ (Flat.new it).abs v.numRows, (v.coord? p).isSome) := by
-  sorry
+  refine ⟨?_, ?_, ?_⟩
+  · obtain ⟨it, e1, _, habs⟩ := C08_rows_view m v n h
+    refine ⟨it, e1, ?_⟩
+    intro w hw p hp
+    rw [habs] at hw
+    obtain ⟨r, hr, rfl⟩ := List.mem_map.1 hw
+    simp only [Win.positions, List.mem_map, List.mem_range] at hp
+    obtain ⟨c, hc, rfl⟩ := hp
+    rw [VW.pos_zero_add, VW.coord?_pos h hc (List.mem_range.1 hr)]
+    rfl
+  · intro c hc
+    obtain ⟨it, e1, _, habs⟩ := (C09_col_view m v n h c (Nat.lt_trans hc h.cols_word)).1 hc
+    refine ⟨it, e1, ?_⟩
+    intro p hp
+    rw [habs] at hp
+    obtain ⟨r, hr, rfl⟩ := List.mem_map.1 hp
+    rw [VW.coord?_pos h hc (List.mem_range.1 hr)]
+    rfl
+  · obtain ⟨it, e1, _, habs, _, _⟩ := C10_cells_view m v n h
+    refine ⟨it, e1, ?_⟩
+    intro p hp
+    rw [habs] at hp
+    obtain ⟨l, hl, hpl⟩ := List.mem_flatten.1 hp
+    obtain ⟨r, hr, rfl⟩ := List.mem_map.1 hl
+    obtain ⟨c, hc, rfl⟩ := List.mem_map.1 hpl
+    rw [VW.coord?_pos h (List.mem_range.1 hc) (List.mem_range.1 hr)]
+    rfl
 
 /-- non-vacuity: fill on the interior window (1,1)-(3,2) of a 4x3 array (stride 4): only the two cells of the window change -/
 example : (Recv.vmut ⟨⟨5, 2⟩, 2, 1, 4⟩).run .debug 100 [0, 1, 2, 3, 4, 5, 6, 7, 8, 9, 10, 11] (.fill 77)
     = .ok [0, 1, 2, 3, 4, 77, 77, 7, 8, 9, 10, 11] := by
-  sorry
+  rfl
 
 end Toodee
